@@ -401,6 +401,48 @@ func genC19Close(r *Rand) *Case {
 	return c
 }
 
+// genCloseDuringStartup: Server.Close runs while a connection that was
+// accepted before it is still in its startup (held inside the password
+// validator, which accepts): the startup goes on as if nothing had happened -
+// the middlewares run, in order, before the first ReadyForQuery, a refusing
+// middleware ends the connection, and the reply is complete.
+func genCloseDuringStartup(r *Rand, prop string) *Case {
+	c := &Case{Variant: "close-during-startup", Server: ServerCfg{Limit: 4096, Auth: "cleartext", DefaultAuth: "reject"}, Programs: map[string]*Program{}}
+	user, db, pw := r.Ident(4), r.Ident(3), "pw"+r.Ident(3)
+	c.Server.Validator = []AuthEntry{{DB: db, User: user, PW: pw, Out: "accept"}}
+	for n := r.Intn(4); n > 0; n-- {
+		c.Server.MW = append(c.Server.MW, MWSpec{})
+	}
+	if len(c.Server.MW) > 0 && r.Chance(1, 3) {
+		c.Server.MW[r.Intn(len(c.Server.MW))].Fail = true
+	}
+	if r.Bool() {
+		genGlobalParams(r, c)
+	}
+	c.Conns = []ConnCase{{Steps: []Step{{Msgs: []pgwire.FMsg{startupMsg(user, db)}}, {Msgs: []pgwire.FMsg{{K: "p", S1: pw}}}}}}
+	c.Sched = &SchedCase{Strategy: r.Pick("uniform", "pct"), Depth: 1, MaxSteps: 200000, Closers: []Closer{{Calls: r.Range(1, 2)}},
+		Holds: []Hold{{Task: 2, Point: "closer.start", Until: 1, UntilPoint: "cb.validator"}, {Task: 1, Point: "cb.validator.ret", Until: 2, UntilPoint: r.Pick("close.signalled", "close.signalled", "closer.returned")}}}
+	return c
+}
+
+func checkCloseDuringStartup(prop string, x *Exec, c *Case) ([]Violation, bool) {
+	r := x.Run(c)
+	c.Sched.Schedule = r.Schedule
+	cs := r.Conns[0]
+	t := ParseOut(cs)
+	viol := GrammarViolation(prop, 0, t)
+	if r.HoldsForced > 0 || r.Outcome != RunIdle || t.Grammar != nil || countKind(cs, "validator") == 0 {
+		x.Probe(fmt.Sprintf("close_during_startup_inconclusive_forced=%d_outcome=%d_grammar=%v_validator=%d", r.HoldsForced, r.Outcome, t.Grammar != nil, countKind(cs, "validator")))
+		return viol, false
+	}
+	x.Probe("close_during_startup")
+	if mr := MatchConn(c, cs, t); !mr.OK {
+		viol = append(viol, Violation{Prop: prop, Rule: mr.Rule, Sig: mr.Sig, Detail: "conn 0 (its startup was in progress when Server.Close ran): " + mr.Detail})
+	}
+	viol = append(viol, lifecycleOracle(prop, c, 0, cs, t)...)
+	return viol, true
+}
+
 func checkC19Close(x *Exec, c *Case) ([]Violation, bool) {
 	r := x.Run(c)
 	c.Sched.Schedule = r.Schedule
@@ -474,7 +516,7 @@ func init() {
 	// ------------------------------------------------------------------ C19
 	register(&Prop{
 		ID: "C19", Level: "exploration", QuickS: 20, ThoroughS: 300,
-		Rule:       "seeded server configurations with 0-5 session middlewares (each adds a distinct context value, any one may fail), optional terminate hook (succeeding or failing), with and without authentication, and command histories (simple and extended, errors, Terminate followed by more bytes); every middleware, parser and statement callback records the context it receives (middleware values, client and server parameters, remote address, type map, liveness, whether the previous command's context has been cancelled); judged by the event-order monitor plus the reference model (which predicts the middleware and terminate-hook events); a quarter of the sessions end abruptly instead (failing write, peer vanishing at a byte offset, read error) and the last command's context is sampled once the connection has ended; variant: a statement cancels the middleware-derived session context, one more query is answered, then Terminate must still run the hook once; E2 variant: Server.Close pinned inside a running statement callback that lets time pass and inspects its context again (live until the command ends); Terminate messages with surplus bytes; a fifth of the cases build a second Server from the very same option values (plus a middleware of its own) before or after the server under test; non-trivial = at least one middleware is registered and at least one command callback ran, or a middleware failed, or a Terminate was sent; distinct = distinct case content hashes",
+		Rule:       "seeded server configurations with 0-5 session middlewares (each adds a distinct context value, any one may fail), optional terminate hook (succeeding or failing), with and without authentication, and command histories (simple and extended, errors, Terminate followed by more bytes); every middleware, parser and statement callback records the context it receives (middleware values, client and server parameters, remote address, type map, liveness, whether the previous command's context has been cancelled); judged by the event-order monitor plus the reference model (which predicts the middleware and terminate-hook events); a quarter of the sessions end abruptly instead (failing write, peer vanishing at a byte offset, read error) and the last command's context is sampled once the connection has ended; variant: a statement cancels the middleware-derived session context, one more query is answered, then Terminate must still run the hook once; E2 variant: Server.Close pinned inside a running statement callback that lets time pass and inspects its context again (live until the command ends); Terminate messages with surplus bytes; a middleware that succeeds but returns a context that has already ended (the later ones still run); E2 variant close-during-startup (Server.Close while a connection accepted before it is inside its password validation: the startup completes as if nothing had happened); a fifth of the cases build a second Server from the very same option values (plus a middleware of its own) before or after the server under test; non-trivial = at least one middleware is registered and at least one command callback ran, or a middleware failed, or a Terminate was sent; distinct = distinct case content hashes",
 		Components: append(append([]string{}, e1Components...), "E2 share (the variants that pin Server.Close or other connections against a running session): seeded scheduler harness/kernel.go decides every interleaving of connection goroutines and Close callers at transport operations, callbacks, hand-placed hooks and spliced synchronisation points"), Assumptions: commonAssumptions,
 		Gen: func(r *Rand, tier string) *Case {
 			if r.Chance(1, 25) {
@@ -482,6 +524,23 @@ func init() {
 			}
 			if r.Chance(1, 30) {
 				return genC19Close(r)
+			}
+			if r.Chance(1, 30) {
+				return genCloseDuringStartup(r, "C19")
+			}
+			if r.Chance(1, 30) {
+				// a middleware that succeeds but hands back a context that has already
+				// ended: the later middlewares run all the same, once each, in order
+				// (the client sends nothing after its startup: what a session under a
+				// dead context answers to commands is not stated anywhere)
+				c := &Case{Variant: "middleware-returns-ended-context", Server: ServerCfg{Limit: 4096}, Programs: map[string]*Program{}}
+				n := r.Range(2, 5)
+				for i := 0; i < n; i++ {
+					c.Server.MW = append(c.Server.MW, MWSpec{})
+				}
+				c.Server.MW[r.Intn(n-1)].Done = true
+				c.Conns = []ConnCase{{Steps: []Step{{Msgs: []pgwire.FMsg{startupMsg("u", "d")}}}, Cuts: genCuts(r)}}
+				return c
 			}
 			c := &Case{Server: ServerCfg{Limit: smallLimit(r)}}
 			nmw := r.PickInt(0, 1, 2, 3, 5)
@@ -549,6 +608,9 @@ func init() {
 			if c.Variant == "close-during-command" {
 				return checkC19Close(x, c)
 			}
+			if c.Variant == "close-during-startup" {
+				return checkCloseDuringStartup("C19", x, c)
+			}
 			viol, r, _ := modelCheck("C19", x, c)
 			nt := false
 			for i, cs := range r.Conns {
@@ -574,7 +636,7 @@ func init() {
 	// ------------------------------------------------------------------ C12
 	register(&Prop{
 		ID: "C12", Level: "exploration", QuickS: 25, ThoroughS: 420, Race: true,
-		Rule:        "seeded startup negotiations: startup packets with 1-8 key/value pairs (duplicates, empty values, an empty key in the middle, missing final terminator, missing value), configured global parameter maps (nil, empty, custom keys) and version strings, with and without authentication, CancelRequest as first packet / after an SSLRequest was declined; callbacks read ClientParameters, ServerParameters and AuthenticatedUsername back; E2 share: 2-5 connections of different users connect concurrently to one server sharing one user-supplied map, under seeded schedules and (race shard) under the -race build with the HB-transparent scheduler; mixed-case keys, server_version configured through the map with and without a Version string, 2-4 connections served one after the other by the same server; the GlobalParameters option given twice (both user maps compared with their copies); sequential connections after a peer that vanished mid-reply; E2 variant: a CancelRequest on a connection accepted just before Server.Close; non-trivial = a session was established and at least one callback read the parameters back, or a cancel/malformed packet was refused; distinct = distinct case content hashes; variant look-alike-startup-packets: clients served one after the other whose startup packets have equal length and user names that collide under FNV-1a / FNV-1 / Adler-32 / multiply-by-31; an eighth of the servers have 1-3 session middlewares, one of which may refuse the session (the startup reply then ends without ReadyForQuery)",
+		Rule:        "seeded startup negotiations: startup packets with 1-8 key/value pairs (duplicates, empty values, an empty key in the middle, missing final terminator, missing value), configured global parameter maps (nil, empty, custom keys) and version strings, with and without authentication, CancelRequest as first packet / after an SSLRequest was declined; callbacks read ClientParameters, ServerParameters and AuthenticatedUsername back; E2 share: 2-5 connections of different users connect concurrently to one server sharing one user-supplied map, under seeded schedules and (race shard) under the -race build with the HB-transparent scheduler; mixed-case keys, server_version configured through the map with and without a Version string, 2-4 connections served one after the other by the same server; the GlobalParameters option given twice (both user maps compared with their copies); sequential connections after a peer that vanished mid-reply; E2 variant: a CancelRequest on a connection accepted just before Server.Close; non-trivial = a session was established and at least one callback read the parameters back, or a cancel/malformed packet was refused; distinct = distinct case content hashes; variant look-alike-startup-packets: clients served one after the other whose startup packets have equal length and user names that collide under FNV-1a / FNV-1 / Adler-32 / multiply-by-31; an eighth of the servers have 1-3 session middlewares, one of which may refuse the session (the startup reply then ends without ReadyForQuery); E2 variant close-during-startup",
 		Components:  append(append([]string{}, e1Components...), "E2 share: seeded scheduler interleaves the connecting users; race shard: -race build, kernel synchronisation hidden from the detector"),
 		Assumptions: commonAssumptions,
 		Gen:         genC12,
@@ -682,6 +744,9 @@ func genC12(r *Rand, tier string) *Case {
 			}
 		}
 	}
+	if r.Chance(1, 30) {
+		return genCloseDuringStartup(r, "C12")
+	}
 	if r.Chance(1, 25) {
 		// two clients, one after the other, whose startup packets are of equal
 		// length and differ only in user names that collide under a popular string
@@ -766,6 +831,9 @@ func checkC12(x *Exec, c *Case) ([]Violation, bool) {
 			viol[i].Prop = "C12"
 		}
 		return viol, nt
+	}
+	if c.Variant == "close-during-startup" {
+		return checkCloseDuringStartup("C12", x, c)
 	}
 	if c.Variant == "cancel-while-closing" {
 		r := x.Run(c)
